@@ -38,6 +38,8 @@ tools passes the frame id stored with the trajectory it writes. C06.7: the
 message helpers take the fields as they are (instances of C07.1). C06.8: the
 trajectory constructors store what the readers parsed as given (instances of
 C07.8).
+C06.3 every-member (wave 7): with load_trajectories=True no further filter
+(an empty name selection ...) may skip the members of a format.
 """
 UNDECIDED = [
     "that the bag's float -> (sec, nanosec) -> float path stays within 1 ns "
